@@ -164,13 +164,19 @@ def run(ctx, rep):
             ch = show_origin(b.origin(t["args"][0]))
             if "<impl [T]>::get(" in ch and "process_channels" in ch:
                 gets = [c_ for c_ in origin_calls(b.origin(t["args"][0])) if c_[1] and c_[1].endswith("<impl [T]>::get")]
-                idx = show_origin(gets[0][2][1]) if gets else "?"
-                if "position(" in idx and pos and any(c_[3] == pos[0][0] for c_ in origin_calls(gets[0][2][1])):
-                    kinds.append("found")
-                elif re.search(r"len\(&?arg1\*?\.process_channels\) (SubWithOverflow|-|Sub) 0x1\)(\.0)?$", idx):
-                    kinds.append("new" if pushes and all(b.dominates(p_, bb) for p_ in pushes) else "new-without-push")
-                else:
-                    kinds.append("other:" + idx[:80])
+                # the index may be one value per send site, or one variable fed from both branches of the lookup:
+                # every reaching definition is classified
+                gterm = b.blocks[gets[0][3]]["t"] if gets else None
+                idx_origins = b.origins(gterm["args"][1]) if gterm else []
+                for io in idx_origins or [None]:
+                    idx = show_origin(io) if io is not None else "?"
+                    if io is not None and "position(" in idx and pos and any(c_[3] == pos[0][0] for c_ in origin_calls(io)):
+                        kinds.append("found")
+                    elif re.search(r"len\(&?arg1\*?\.process_channels\) (SubWithOverflow|-|Sub) 0x1\)(\.0)?$", idx):
+                        lens = [c_[3] for c_ in origin_calls(io) if c_[1] and c_[1].endswith("::len")]
+                        kinds.append("new" if pushes and lens and all(b.dominates(p_, l_) for p_ in pushes for l_ in lens) else "new-without-push")
+                    else:
+                        kinds.append("other:" + idx[:80])
             elif "<impl [T]>::last(" in ch and "process_channels" in ch:
                 kinds.append("new" if pushes and all(b.dominates(p_, bb) for p_ in pushes) else "new-without-push")
             else:
@@ -183,6 +189,10 @@ def run(ctx, rep):
             found_bb = [x[0] for x, k_ in zip(sends, kinds) if k_ == "found"]
             new_bb = [x[0] for x, k_ in zip(sends, kinds) if k_ == "new"]
             ok = bool(found_bb) and bool(new_bb) and b.dominates(pos[0][0], found_bb[0]) and b.dominates(pos[0][0], new_bb[0]) and all(not b.dominates(p_, found_bb[0]) for p_ in pushes)
+            rep.check(ok, "R6.3", "R6.3|new_only_when_unknown", "a validator is created only when the lookup failed", dbi)
+        elif pos and len(sends) == 1 and pushes:
+            # one send fed from both branches: the creation (push) lies after the lookup and is bypassed on the found path
+            ok = all(b.dominates(pos[0][0], p_) for p_ in pushes) and not b.all_paths_pass(pos[0][0], pushes, to=[sends[0][0]])
             rep.check(ok, "R6.3", "R6.3|new_only_when_unknown", "a validator is created only when the lookup failed", dbi)
     else:
         rep.missing("R6.3", dbi)
